@@ -667,6 +667,15 @@ func (se *streamEnv) streamPaths(isWrite func(c *ssa.Call) (ssa.Value, bool)) []
 				continue
 			}
 			f := factOf(Guard{iff, true})
+			if f.Op == 0 && strip(f.Bool) == ssa.Value(c) {
+				// a writer that reports success as a bool: the false arm is the failure arm
+				if f.True {
+					errEdge[b] = 1
+				} else {
+					errEdge[b] = 0
+				}
+				continue
+			}
 			ev := errValueOf(f.X)
 			if ex, ok := ev.(*ssa.Extract); ok {
 				ev = ex.Tuple
